@@ -1064,7 +1064,11 @@ pub fn suite_stress(t: &mut Trace, seed: u64, rounds: u64) -> String {
     let mut fails: Vec<(&str, u64, String)> = Vec::new();
     let mut rng = Rng::new(seed ^ 0x5712_e55);
     let mut total_ops = 0u64;
+    let mut ttl_polled = 0u64;
     for round in 0..rounds {
+        if fails.len() > 24 {
+            break;
+        }
         let is_async = round % 2 == 1;
         let buffer_items = *rng.pick(&[1usize, 3, 4, 16, 64]);
         let buf_cap = *rng.pick(&[2usize, 8, 64]);
@@ -1251,16 +1255,221 @@ pub fn suite_stress(t: &mut Trace, seed: u64, rounds: u64) -> String {
         t.mark_nontrivial();
         let _ = do_op(&ck, &Op::Close);
     }
+    // ---- colliding keys under real parallelism (C18, C02): two keys per index, told apart by the
+    // conflict hash only; every value carries the conflict hash of the key it was written under, and
+    // no lookup of a key may ever return a value written under its twin, whatever the threads do.
+    let base = fails.len();
+    for cround in 0..rounds / 2 {
+        if fails.len() > base + 8 {
+            break;
+        }
+        let is_async = cround % 2 == 1;
+        let round = 200_000 + cround;
+        verif::clock::set_ns(1_700_000_000_000_000_000);
+        let cb = Cb::default();
+        let ck = Arc::new(if is_async {
+            CK::A(AsyncCacheBuilder::new_with_key_builder(64, 1000, TableKB)
+                .set_coster(Co(0)).set_update_validator(Va(0)).set_callback(cb.clone())
+                .set_metrics(true).set_ignore_internal_cost(true).set_buffer_size(64)
+                .set_hasher(SeedBH(seed ^ round))
+                .finalize(spawner).expect("async cache"))
+        } else {
+            CK::S(CacheBuilder::new_with_key_builder(64, 1000, TableKB)
+                .set_coster(Co(0)).set_update_validator(Va(0)).set_callback(cb.clone())
+                .set_metrics(true).set_ignore_internal_cost(true).set_buffer_size(64)
+                .set_hasher(SeedBH(seed ^ round))
+                .finalize().expect("sync cache"))
+        });
+        t.case(round, "stress");
+        let bad: Arc<Mutex<Vec<String>>> = Arc::new(Mutex::new(Vec::new()));
+        // more threads than cores: a few churn the owner of each index (remove one twin, insert the
+        // other), the rest update in place and look up, and get descheduled at every possible point
+        let nthreads = 24u64;
+        let mut hs = Vec::new();
+        for th in 0..nthreads {
+            let ck = ck.clone();
+            let bad = bad.clone();
+            let mut r = Rng::new(seed.wrapping_mul(17).wrapping_add(round * 71 + th));
+            hs.push(std::thread::spawn(move || {
+                for i in 0..1200u64 {
+                    let idx = r.range(1, 2);
+                    let conf = r.range(1, 2);
+                    // a value says which key it was written under: low two bits = the conflict hash
+                    let val = ((10_000 * (th + 1) + i) << 2) | conf;
+                    let k = if th < 4 { r.below(6) } else { 2 + r.below(8) };
+                    let res = match k {
+                        0 | 1 => { let _ = do_op(&ck, &Op::Remove { idx, conf: 3 - conf }); do_op(&ck, &Op::Insert { idx, conf, val, cost: 1, ttl_ns: 0, only: false }) }
+                        2..=5 => do_op(&ck, &Op::Insert { idx, conf, val, cost: 1, ttl_ns: 0, only: true }),
+                        6 => do_op(&ck, &Op::GetMutWrite { idx, conf, val }),
+                        _ => do_op(&ck, &Op::Get { idx, conf }),
+                    };
+                    // get:<value>:<ttl> / getmut:<old value>
+                    let got = res.strip_prefix("get:").or_else(|| res.strip_prefix("getmut:")).and_then(|x| x.split(':').next()).and_then(|x| x.parse::<u64>().ok());
+                    if let Some(v) = got {
+                        if v & 3 != conf {
+                            bad.lock().unwrap().push(format!("a lookup of key (index {}, conflict {}) returned {}, a value written under its twin (conflict {})", idx, conf, v, v & 3));
+                            return;
+                        }
+                    }
+                }
+            }));
+        }
+        let t0 = Instant::now();
+        while hs.iter().any(|h| !h.is_finished()) && t0.elapsed() < Duration::from_secs(60) {
+            std::thread::sleep(Duration::from_millis(2));
+        }
+        let fl = if is_async { "async" } else { "sync" };
+        if hs.iter().any(|h| !h.is_finished()) {
+            fails.push(("C20", round, format!("{}: colliding keys under parallel load: a thread has not come back after 60 s", fl)));
+            break;
+        }
+        for msg in bad.lock().unwrap().iter() {
+            fails.push(("C18", round, format!("{}: {}", fl, msg)));
+            fails.push(("C02", round, format!("{}: {}", fl, msg)));
+        }
+        total_ops += nthreads * 1200;
+        t.step(&format!("stress collisions {}", fl));
+        t.mark_nontrivial();
+        let _ = do_op(&ck, &Op::Close);
+    }
+    // ---- TTLs read while the clock moves: a thread drives the virtual clock forward without pause
+    // (so it also moves *inside* a call that reads it twice) while clients insert entries with a short
+    // TTL and poll get_ttl() and ValueRef::ttl() until the entry is gone.  Nothing may panic (C20), and
+    // the remaining TTL never exceeds d and never grows (C03).
+    let base = fails.len();
+    for eround in 0..rounds.min(100) {
+        if fails.len() > base + 8 {
+            break;
+        }
+        let is_async = eround % 2 == 1;
+        let round = 100_000 + eround;
+        let t_base = 1_700_000_000_000_000_000u64;
+        verif::clock::set_ns(t_base);
+        let cb = Cb::default();
+        let ck = Arc::new(if is_async {
+            CK::A(AsyncCacheBuilder::new_with_key_builder(64, 1000, TableKB)
+                .set_coster(Co(0)).set_update_validator(Va(0)).set_callback(cb.clone())
+                .set_metrics(true).set_ignore_internal_cost(true)
+                .set_hasher(SeedBH(seed ^ round))
+                .finalize(spawner).expect("async cache"))
+        } else {
+            CK::S(CacheBuilder::new_with_key_builder(64, 1000, TableKB)
+                .set_coster(Co(0)).set_update_validator(Va(0)).set_callback(cb.clone())
+                .set_metrics(true).set_ignore_internal_cost(true)
+                .set_hasher(SeedBH(seed ^ round))
+                .finalize().expect("sync cache"))
+        });
+        t.case(round, "stress");
+        let stop = Arc::new(AtomicU64::new(0));
+        let clock = {
+            let stop = stop.clone();
+            std::thread::spawn(move || {
+                while stop.load(AO::Relaxed) == 0 {
+                    verif::clock::advance_ns(157);
+                    for _ in 0..8 {
+                        std::hint::spin_loop();
+                    }
+                }
+            })
+        };
+        let bad: Arc<Mutex<Vec<String>>> = Arc::new(Mutex::new(Vec::new()));
+        let polled = Arc::new(AtomicU64::new(0));
+        let mut hs = Vec::new();
+        for th in 0..3u64 {
+            let ck = ck.clone();
+            let bad = bad.clone();
+            let polled = polled.clone();
+            hs.push(std::thread::spawn(move || {
+                for i in 0..60u64 {
+                    let idx = 1 + th * 1000 + i;
+                    let ttl_ns = 3_000_000u64;
+                    let r = std::panic::catch_unwind(std::panic::AssertUnwindSafe(|| {
+                        let _ = do_op(&ck, &Op::Insert { idx, conf: 0, val: 9_000_000 + idx, cost: 1, ttl_ns, only: false });
+                        let mut prev = u64::MAX;
+                        let mut seen = false;
+                        let deadline = verif::clock::now_ns() + 2 * ttl_ns;
+                        for n in 0..400_000u64 {
+                            if !seen && verif::clock::now_ns() > deadline {
+                                // expired before the processor admitted it: nothing to poll
+                                break;
+                            }
+                            let d = if n % 2 == 0 {
+                                match &*ck { CK::S(c) => c.get_ttl(&mkkey(idx, 0)), CK::A(c) => c.get_ttl(&mkkey(idx, 0)) }
+                            } else {
+                                match &*ck {
+                                    CK::S(c) => c.get(&mkkey(idx, 0)).map(|v| { let d = v.ttl(); v.release(); d }),
+                                    CK::A(c) => futures::executor::block_on(c.get(&mkkey(idx, 0))).map(|v| { let d = v.ttl(); v.release(); d }),
+                                }
+                            };
+                            match d {
+                                Some(d) => {
+                                    seen = true;
+                                    let ns = d.as_nanos() as u64;
+                                    if ns > ttl_ns {
+                                        return Some(format!("key {} inserted with a TTL of {} ns reports {} ns remaining", idx, ttl_ns, ns));
+                                    }
+                                    if ns > prev {
+                                        return Some(format!("the remaining TTL of key {} grew from {} to {} ns while the clock only moved forward", idx, prev, ns));
+                                    }
+                                    prev = ns;
+                                }
+                                None if seen => break,
+                                None => {}
+                            }
+                        }
+                        if seen {
+                            polled.fetch_add(1, AO::Relaxed);
+                        }
+                        None
+                    }));
+                    match r {
+                        Ok(None) => {}
+                        Ok(Some(msg)) => { bad.lock().unwrap().push(msg); return; }
+                        Err(e) => {
+                            let msg = e.downcast_ref::<String>().cloned().or_else(|| e.downcast_ref::<&str>().map(|s| s.to_string())).unwrap_or_default();
+                            bad.lock().unwrap().push(format!("PANIC reading the TTL of key {} at its deadline: {}", idx, msg));
+                            return;
+                        }
+                    }
+                }
+            }));
+        }
+        let t0 = Instant::now();
+        while hs.iter().any(|h| !h.is_finished()) && t0.elapsed() < Duration::from_secs(60) {
+            std::thread::sleep(Duration::from_millis(2));
+        }
+        let hung = hs.iter().any(|h| !h.is_finished());
+        stop.store(1, AO::SeqCst);
+        let _ = clock.join();
+        let fl = if is_async { "async" } else { "sync" };
+        if hung {
+            fails.push(("C20", round, format!("{}: polling TTLs while the clock moves: a thread has not come back after 60 s", fl)));
+        }
+        for msg in bad.lock().unwrap().iter() {
+            if msg.starts_with("PANIC") {
+                fails.push(("C20", round, format!("{}: {}", fl, msg)));
+            }
+            fails.push(("C03", round, format!("{}: {}", fl, msg)));
+        }
+        ttl_polled += polled.load(AO::SeqCst);
+        t.step(&format!("stress ttl polling {}", fl));
+        t.mark_nontrivial();
+        if !hung {
+            let _ = do_op(&ck, &Op::Close);
+        }
+        verif::clock::set_ns(t_base);
+    }
     // ---- lifecycle under real parallelism: clear / wait / insert / remove from several threads while
     // another thread closes the cache.  Everybody must come back (C10, C11, C12: nothing blocks for
     // ever, whatever the race between an operation's is_closed check and its send), and once close()
     // has returned the cache is inert.
+    let base = fails.len();
     for lround in 0..rounds * 24 {
         let is_async = lround % 2 == 0;
         // one round in six: long random loops; the others: a burst — every thread makes one call,
         // released at the same instant as close(), so that some of them are between their is_closed
         // check and their send when the flag is published
-        if fails.len() > 8 {
+        if fails.len() > base + 8 {
             // enough evidence; every blocked round costs its whole timeout
             break;
         }
@@ -1369,10 +1578,14 @@ pub fn suite_stress(t: &mut Trace, seed: u64, rounds: u64) -> String {
     for (prop, round, msg) in &fails {
         if seen.insert((*prop, msg.clone())) {
             println!("MONITOR property={} case={} msg={}", prop, round, msg.replace(' ', "_"));
+            // C19: AsyncCache satisfies every property above
+            if msg.starts_with("async") && *prop != "C19" && seen.insert(("C19", msg.clone())) {
+                println!("MONITOR property=C19 case={} msg={}_(property_{}_on_AsyncCache)", round, msg.replace(' ', "_"), prop);
+            }
         }
     }
     stretto::verif::install(None);
-    format!(",\"model\":false,\"parallel_ops\":{},\"conservation_checks_failed\":{}", total_ops, fails.len())
+    format!(",\"model\":false,\"parallel_ops\":{},\"ttl_entries_polled_to_expiry\":{},\"conservation_checks_failed\":{}", total_ops, ttl_polled, fails.len())
 }
 
 /// C05 / C20: the real cleanup ticker (crossbeam `tick`, async-io `Timer::interval`), which every other
